@@ -6,7 +6,7 @@
    The goroutines and channels around them (broadcaster, Flush's lock, Close's time-outs) are
    exercised by the harness against a scripted TNC, not modelled: partial for that part. *)
 From Coq Require Import List NArith ZArith.
-From Verif Require Import Base.Bytes gen.Tables Transport.Agwpe Transport.AgwpeP Transport.Ardop Transport.ArdopP.
+From Verif Require Import Base.Bytes gen.Tables Transport.Agwpe Transport.AgwpeP Transport.Ardop Transport.ArdopP Transport.ArdopFlush.
 Import ListNotations.
 Open Scope N_scope.
 
@@ -87,11 +87,18 @@ Theorem C14_crc_16bit : forall data, ardop_crc16 data < 65536.
 Proof. exact crc16_bound. Qed.
 Print Assumptions C14_crc_16bit.
 
-(* Not proven: the full statement through the goroutine structure (broadcaster with its 500 ms
-   receiver time-out, Flush's lock released by BUFFER 0, Close's 30 s time-outs). *)
-Definition C14_flush_statement : Prop :=
-  forall (events : list afr) (c : cstate), cs_flush_locked (ctrl_run c events) = false ->
-    cs_flush_locked c = false \/ exists f, In f events /\ exists line, f = AFCmd line /\ parse_ctrl line = Some ([66; 85; 70; 70; 69; 82], VInt 0%Z).
+(* Flush: the flush lock as a transition system — the control loop's dispatch interleaved in
+   ANY order with the moments at which a Write (having seen the BUFFER report for its frame)
+   takes the lock.  Flush returns (finds the lock released) only if no Write has taken it, or
+   the TNC reported an empty buffer after the last time one did. *)
+Theorem C14_flush : forall es c, cs_flush_locked (arun c es) = false ->
+  (cs_flush_locked c = false /\ no_lock es) \/
+  (exists pre e post, es = pre ++ e :: post /\ is_empty_report e /\ no_lock post).
+Proof. exact flush_only_after_empty_report. Qed.
+Print Assumptions C14_flush.
+
+(* Not modelled: the broadcaster with its 500 ms receiver time-out and Close's 30 s time-outs
+   (goroutines and timers): exercised by the harness against a scripted TNC. *)
 
 (* Non-vacuity and the published test vectors of crc16_test.go. *)
 Example C14_crc_vectors :
